@@ -51,7 +51,27 @@ fn supervise(cmd: &str, tier: Tier, seed: u64) -> i32 {
         }
     };
     let pid = ch.id();
-    let status = ch.wait().ok();
+    // wall-clock guard: a batch that runs far beyond its budget is a harness error, not a hang
+    let limit = std::time::Duration::from_secs(
+        std::env::var("HESIM_TIME_LIMIT_S").ok().and_then(|s| s.parse().ok()).unwrap_or(if tier == Tier::Quick { 1500 } else { 6 * 3600 }),
+    );
+    let t0 = std::time::Instant::now();
+    let status = loop {
+        match ch.try_wait() {
+            Ok(Some(st)) => break Some(st),
+            Ok(None) => {
+                if t0.elapsed() > limit {
+                    let _ = ch.kill();
+                    let _ = ch.wait();
+                    let _ = std::fs::remove_dir_all(driver::inflight_dir(pid));
+                    eprintln!("harness error: {} {} exceeded its wall-clock limit of {} s and was stopped", cmd, tier.name(), limit.as_secs());
+                    return 2;
+                }
+                std::thread::sleep(std::time::Duration::from_millis(50));
+            }
+            Err(_) => break None,
+        }
+    };
     let code = status.and_then(|s| s.code());
     if normal(code) {
         let _ = std::fs::remove_dir_all(driver::inflight_dir(pid));
